@@ -288,6 +288,28 @@ Fixpoint clear_archs (order : list shape) (st : list arch * list slot * list nat
 (** [World::clear].  [visit] is the oracle's table order; archetypes it does not
     name are visited afterwards in model order (visiting an archetype twice or
     naming an unknown shape has no effect). *)
+(** The order in which [Archetypes::clear] visits the archetypes decides the order in which the identifiers
+    become available for reuse.  Whether it is the order of the identifiers' bytes (the same for a world and
+    for its copies; finding F6 repaired) or the order of the address-keyed table (an oracle input, read off
+    the implementation) is read off the source: [fact_clear_visits_in_identifier_order]. *)
+Fixpoint bytes_leb (a b : list N) : bool :=
+  match a, b with
+  | [], _ => true
+  | _ :: _, [] => false
+  | x :: a', y :: b' => if N.ltb x y then true else if N.ltb y x then false else bytes_leb a' b'
+  end.
+
+Fixpoint insert_shape (sh : shape) (l : list shape) : list shape :=
+  match l with
+  | [] => [sh]
+  | h :: t => if bytes_leb (bytes_of_shape sh) (bytes_of_shape h) then sh :: l else h :: insert_shape sh t
+  end.
+
+Definition sort_shapes (l : list shape) : list shape := fold_right insert_shape [] l.
+
+Definition clear_order (visit : list shape) : list shape :=
+  if fact_clear_visits_in_identifier_order then sort_shapes visit else visit.
+
 Definition do_clear (w : world) (visit : list shape) : result :=
   '(archs1, slots1, free1, evs) <-
      clear_archs (visit ++ map a_shape (w_archs w)) (w_archs w, w_slots w, w_free w, []) ;;
@@ -392,7 +414,7 @@ Definition step (w : world) (o : op) : result :=
   | Insert ent => do_insert w ent
   | Extend comps rows => do_extend w comps rows
   | Remove e => do_remove w e
-  | Clear visit => do_clear w visit
+  | Clear visit => do_clear w (clear_order visit)
   | EntryAdd e c v => do_entry_add w e c v
   | EntryRemove e c => do_entry_remove w e c
   | WriteMut e c v => do_write w e c v
